@@ -1920,16 +1920,36 @@ insert_list:
         }
         if (!q.th || !cnt || !m_ooo_resume)
             return;
-        SCOPED_LOCK(q.lock);
-        for (auto th = q.th->next();
-                  th!= q.th && cnt;
-                  th = th->next()) {
-            SCOPED_LOCK(th->lock);
-            auto& c = th->semaphore_count;
-            if (c <= cnt) {
-                cnt -= c;
-                prelocked_thread_interrupt(th, -1);
+        auto lst = (thread_list*)&q;
+    again:
+        bool busy = false;
+        {
+            SCOPED_LOCK(q.lock);
+            if (!q.th) return;
+            for (auto th = q.th->next(); th != q.th && cnt; ) {
+                auto next = th->next();
+                // th->lock must only be try_lock()-ed while holding q.lock
+                // (everyone else takes th->lock BEFORE the waitq lock)
+                if (th->lock.try_lock() < 0) {
+                    busy = true;
+                } else {
+                    DEFER(th->lock.unlock());
+                    auto c = th->semaphore_count;
+                    if (c <= cnt) {
+                        cnt -= c;
+                        // q.lock is already held: dequeue here, so that
+                        // the interrupt does not lock the queue again
+                        lst->erase(th);
+                        th->waitq = nullptr;
+                        prelocked_thread_interrupt(th, -1);
+                    }
+                }
+                th = next;
             }
+        }
+        if (busy && cnt) {  // a waiter was being timed out / interrupted
+            spin_wait();    // by someone else: look again once it is done
+            goto again;
         }
     }
     inline bool semaphore::try_subtract(uint64_t count) {
